@@ -112,13 +112,15 @@ pub fn chars_text(alphabet: &[char], len: usize, idx: u64) -> String {
 // Embedding contexts (C11)
 
 /// (name, text before the hole, text after the hole)
-pub const EMBED_CONTEXTS: [(&str, &str, &str); 6] = [
+pub const EMBED_CONTEXTS: [(&str, &str, &str); 8] = [
     ("string literal", "let a = \"", "\";\nlet b = a;"),
     ("block comment", "let a = num; /*", "*/ let b = a;"),
     ("line comment", "let a = num; //", "\nlet b = a;"),
     ("line annotation", "#", "\nlet a = num;"),
     ("inline annotation", "let a = num `", "`;\nlet b = a;"),
     ("between two tokens", "let a =", "num;"),
+    ("start of the text", "", "let a = num;\nlet b = a;"),
+    ("end of the text", "let a = num;\nlet b = a;", ""),
 ];
 
 // ---------------------------------------------------------------------------
@@ -470,7 +472,7 @@ pub struct Family {
     pub kind: FamilyKind,
 }
 
-pub const FAMILIES: [Family; 25] = [
+pub const FAMILIES: [Family; 34] = [
     Family { name: "paren-a", kind: FamilyKind::Nest },
     Family { name: "paren-num", kind: FamilyKind::Nest },
     Family { name: "array-num", kind: FamilyKind::Nest },
@@ -485,6 +487,15 @@ pub const FAMILIES: [Family; 25] = [
     Family { name: "prop-a", kind: FamilyKind::Nest },
     Family { name: "rec", kind: FamilyKind::Nest },
     Family { name: "nested-app", kind: FamilyKind::Nest },
+    Family { name: "open-paren", kind: FamilyKind::Nest },
+    Family { name: "open-array", kind: FamilyKind::Nest },
+    Family { name: "open-object", kind: FamilyKind::Nest },
+    Family { name: "open-content", kind: FamilyKind::Nest },
+    Family { name: "open-headers", kind: FamilyKind::Nest },
+    Family { name: "open-urivar", kind: FamilyKind::Nest },
+    Family { name: "open-app", kind: FamilyKind::Nest },
+    Family { name: "open-mixed", kind: FamilyKind::Nest },
+    Family { name: "mismatch", kind: FamilyKind::Nest },
     Family { name: "app", kind: FamilyKind::Chain },
     Family { name: "app-num", kind: FamilyKind::Chain },
     Family { name: "sum-a", kind: FamilyKind::Chain },
@@ -533,6 +544,16 @@ pub fn family_text(name: &str, d: usize) -> String {
         "prop-a" => format!("{}a", rep("'p ", d)),
         "rec" => format!("{}x", rep("rec x ", d)),
         "nested-app" => format!("{}a{}", rep("f (", d), rep(")", d)),
+        // brackets opened and never (or wrongly) closed: the parse fails at every level
+        "open-paren" => format!("{}a", rep("(", d)),
+        "open-array" => format!("{}num", rep("[", d)),
+        "open-object" => format!("{}num", rep("{'p ", d)),
+        "open-content" => format!("{}num", rep("<", d)),
+        "open-headers" => format!("{}str", rep("<headers={'h ", d)),
+        "open-urivar" => format!("{}num", rep("/{'p ", d)),
+        "open-app" => format!("{}a", rep("f (", d)),
+        "open-mixed" => format!("{}num", rep("([{'p <", d)),
+        "mismatch" => format!("{}num{}", rep("[", d), rep(")", d)),
         "app" => chain("f", " ", "a", d),
         "app-num" => chain("f", " ", "num", d),
         "sum-a" => chain("a", " | ", "a", d),
